@@ -48,7 +48,7 @@ def read(self, path: str, detect_rf_use: bool = False, remove_duplicates: bool =
     self.label_inc_library = EventLibrary()
     self.label_set_library = EventLibrary()
     self.rf_library = EventLibrary()
-    self.shape_library = EventLibrary()
+    self.shape_library = EventLibrary(numpy_data=True)
     self.trigger_library = EventLibrary()
 
     # Raster times
